@@ -49,7 +49,7 @@ if os.path.exists(os.path.join(V, 'tools', 'sec09.md')):
     summary += '\n' + open(os.path.join(V, 'tools', 'sec09.md')).read()
 p = os.path.join(V, 'tools', 'sec0.md')
 t = open(p).read()
-t = t[:t.index('### 0.8 Seeded breaking changes')] + head + '\n'.join(rows) + summary
+t = t[:t.index('### 0.8 Seeded')] + head + '\n'.join(rows) + summary
 open(p, 'w').write(t)
 subprocess.run(['python3', os.path.join(V, 'tools', 'merge_design.py')])
 print(cnt)
